@@ -34,6 +34,7 @@ def build(E, tier):
         cm.verify_store_cmd(E, "C02", "exception", verbs=("set",) if only else ("set", "cas"))
     if only in (None, "misc"):
         cm.verify_public_misc(E)
+    cm.verify_delete_many(E)
 
 
 def known_witness(entry, ob):
